@@ -59,7 +59,7 @@ def compare(text, ordered, kw, state, limit_mode=None):
     db = make_db(state)
     try:
         try:
-            exp = db.execute(text).fetchall()
+            exp = db.execute(selgen.reference_text(text)).fetchall()
         except sqlite3.Error as e:
             return 'skip:original-not-executable', str(e)
         try:
